@@ -417,6 +417,17 @@ def analyse_unit(name, canary=False, rlimit=None, seed=None):
                 obls[oid] = {"id": oid, "fn": k, "kind": "overlay", "props": overlay_props[k],
                              "text": "overlay lemma/driver `%s` (postcondition is a sentence of the property)" % k,
                              "src": "specs/" + name + ".vspec", "status": "discharged"}
+    # a closure that no rule rewrites or hoists has no specification inside Verus: whatever it returns is unconstrained, so a postcondition
+    # that depends on it cannot be proved whether or not the code is right. A failure in such a function is "unsupported construct", not a verdict.
+    closure_fns = set()
+    for w in meta.get("warnings", []):
+        mw = re.match(r"closure-carrying chain #\d+ in (.+) at line \d+ has no hoist rule", w)
+        if mw:
+            closure_fns.add(mw.group(1).strip())
+    for o in obls.values():
+        if o["status"] == "failed" and o["fn"] in closure_fns and o.get("kind") in ("ensures", "body"):
+            o["status"] = "undecided"
+            o.setdefault("diag", []).append({"msg": f"{o['fn']} contains a closure without specification (no rewrite or hoist rule applies): unsupported construct, not decided"})
     fn_base = meta.get("fn_base", {})
     for o in obls.values():
         extra_p = fn_base.get(o["fn"], [])
